@@ -217,6 +217,84 @@ mut('C08-vmf-no-clip', 'C08', D + 'von_mises_fisher.py', "        concentration 
 mut('C08-gaussian-weighted-sum-wrong-index', 'C08', D + 'gaussian.py', "            mean = np.einsum(\"...n,...nd->...d\", saliency, y)", "            mean = np.einsum(\"...d,...nd->...d\", saliency, y)", expect='weighted-sum')
 mut('C08-inline-weights-axis', 'C08', D + 'gcacgmm.py', "            weight /= np.sum(weight, axis=-2, keepdims=True)", "            weight /= np.sum(weight, axis=-1, keepdims=True)", expect='weight-renormalisation')
 
+
+# ------------------------------------------------------------------ C10 - C13
+BF = 'pb_bss/extraction/beamformer.py'
+WR = 'pb_bss/extraction/beamformer_wrapper.py'
+mut('D7-psd-asfarray', 'C10', BF, "            mask = np.asarray(mask, dtype=np.float64)", "            mask = np.asfarray(mask)", expect='asfarray')
+mut('D8-phase-correction-axis0', 'C13', BF, "        ), axis=-2\n    )\n    return vector", "        ), axis=0\n    )\n    return vector", expect='cumprod')
+mut('D9-mvdr-solve-vector-stack', 'C11', BF, "        numerator = solve(noise_psd_matrix, atf_vector[..., None])[..., 0]", "        numerator = solve(noise_psd_matrix, atf_vector)", expect='solve-vector-stack', props=['C11', 'C13'])
+mut('C10-psd-conj-first', 'C10', BF, "        psd = np.einsum('...dt,...et->...de', observation, observation.conj())", "        psd = np.einsum('...dt,...et->...de', observation.conj(), observation)", expect='conj-second')
+mut('C10-psd-transposed-output', 'C10', BF, "                '...kt,...dt,...et->...kde',", "                '...kt,...dt,...et->...ked',", expect='conj-second')
+mut('C10-psd-mask-source-axis', 'C10', BF, "                '...kt,...dt,...et->...kde',", "                '...kt,...dt,...et->...dke',", expect=None)
+mut('C10-psd-normalise-wrong-axis', 'C10', BF, "                np.sum(mask, axis=time_dim, keepdims=True),", "                np.sum(mask, axis=source_dim, keepdims=True),", expect='mask-normalisation')
+mut('C10-psd-normalise-always', 'C10', BF, "        if normalize:\n            mask /= np.maximum(", "        if True:\n            mask /= np.maximum(", expect='normalize-guard')
+mut('C10-psd-no-floor', 'C10', BF, "            mask /= np.maximum(\n                np.sum(mask, axis=time_dim, keepdims=True),\n                1e-10,\n            )", "            mask /= np.sum(mask, axis=time_dim, keepdims=True)", expect='mask-normalisation')
+mut('C10-psd-frames-denominator', 'C10', BF, "        psd /= observation.shape[-1]", "        psd /= observation.shape[-2]", expect='frame-count')
+mut('C10-psd-roll-guard', 'C10', BF, "            if source_dim < -2:", "            if source_dim < -1:", expect='rollaxis-guard')
+mut('C10-condition-trace-axes', 'C10', BF, "    scale = gamma * np.trace(x, axis1=-2, axis2=-1) / x.shape[-1]", "    scale = gamma * np.trace(x, axis1=0, axis2=-1) / x.shape[-1]", expect='trace-axes')
+mut('C10-condition-denominator', 'C10', BF, "    return (x + scaled_eye) / (1 + gamma)", "    return (x + scaled_eye) / (1 - gamma)", expect='form')
+mut('C11-mvdr-roles-swapped', 'C11', BF, "    phi = stable_solve(noise_psd_matrix, target_psd_matrix)\n    lambda_ = np.trace(phi, axis1=-1, axis2=-2)[..., None, None]\n    if eps is None:", "    phi = stable_solve(target_psd_matrix, noise_psd_matrix)\n    lambda_ = np.trace(phi, axis1=-1, axis2=-2)[..., None, None]\n    if eps is None:", expect='solve-roles')
+mut('C11-souden-row-instead-of-column', 'C11', BF, "    beamformer = mat[..., ref_channel]\n", "    beamformer = mat[..., ref_channel, :]\n", expect='column-selection')
+mut('C11-wmwf-mu-times-lambda', 'C11', BF, "        filter_ = phi / (distortion_weight + lambda_)", "        filter_ = phi / (distortion_weight * lambda_)", expect='mu-plus-lambda')
+mut('C11-ref-channel-argmin', 'C11', BF, "    return np.argmax(SNR.real)", "    return np.argmin(SNR.real)", expect='argmax')
+mut('C11-ref-channel-inverted-ratio', 'C11', BF,
+    "        '...FdR,...FdD,...FDR->...R', w_mat.conj(), target_psd_matrix, w_mat\n    ) / np.maximum(np.einsum(\n        '...FdR,...FdD,...FDR->...R', w_mat.conj(), noise_psd_matrix, w_mat\n    ), eps)",
+    "        '...FdR,...FdD,...FDR->...R', w_mat.conj(), noise_psd_matrix, w_mat\n    ) / np.maximum(np.einsum(\n        '...FdR,...FdD,...FDR->...R', w_mat.conj(), target_psd_matrix, w_mat\n    ), eps)", expect='snr-roles')
+mut('C11-mvdr-denominator-no-conj', 'C11', BF, "    denominator = np.einsum('...d,...d->...', atf_vector.conj(), numerator)", "    denominator = np.einsum('...d,...d->...', atf_vector, numerator)", expect='denominator')
+mut('C11-wmwf-trace-axes', 'C11', BF, "    phi = stable_solve(noise_psd_matrix, target_psd_matrix)\n    lambda_ = np.trace(phi, axis1=-1, axis2=-2)[..., None, None]\n    if distortion_weight", "    phi = stable_solve(noise_psd_matrix, target_psd_matrix)\n    lambda_ = np.trace(phi, axis1=0, axis2=-2)[..., None, None]\n    if distortion_weight", expect='trace')
+mut('C11-lcmv-gram-conj-second', 'C11', BF, "        'k...d,K...d->...kK',\n        atf_vectors.conj(),\n        Phi_inverse_times_H", "        'k...d,K...d->...kK',\n        atf_vectors,\n        Phi_inverse_times_H.conj()", expect='gram')
+mut('C12-gev-swapped', 'C12', BF, "                target_psd_matrix[f, :, :], noise_psd_matrix[f, :, :]\n            )", "                noise_psd_matrix[f, :, :], target_psd_matrix[f, :, :]\n            )", expect='eigh-roles')
+mut('C12-gev-argmin', 'C12', BF, "        beamforming_vector[f, :] = eigenvecs[:, np.argmax(eigenvals)]", "        beamforming_vector[f, :] = eigenvecs[:, np.argmin(eigenvals)]", expect='argmin')
+mut('C12-gev-row', 'C12', BF, "        beamforming_vector[f, :] = eigenvecs[:, np.argmax(eigenvals)]", "        beamforming_vector[f, :] = eigenvecs[np.argmax(eigenvals), :]", expect='eigvec-axis')
+mut('C12-pca-first', 'C12', BF, "        beamforming_vector = eigenvecs[..., -1]\n        eigenvalues = eigenvals[..., -1]\n        # Reconstruct original shape\n        beamforming_vector", "        beamforming_vector = eigenvecs[..., 0]\n        eigenvalues = eigenvals[..., 0]\n        # Reconstruct original shape\n        beamforming_vector", expect='index')
+mut('C12-rank1-conj-first', 'C12', WR, "    a = get_pca_vector(covariance_matrix, **atf_kwargs)\n\n    # Wang et al. \"Rank-1 Constrained [...]\" Eq. 25 (implicit)\n    cov_rank1 = np.einsum('...d,...D->...dD', a, a.conj())", "    a = get_pca_vector(covariance_matrix, **atf_kwargs)\n\n    # Wang et al. \"Rank-1 Constrained [...]\" Eq. 25 (implicit)\n    cov_rank1 = np.einsum('...d,...D->...dD', a.conj(), a)", expect='conj-second-index')
+mut('C12-rank1-scale-inverted', 'C12', WR, "    scale = np.trace(covariance_matrix, axis1=-1, axis2=-2)\n    scale /= np.trace(cov_rank1, axis1=-1, axis2=-2)\n    return scale[..., None, None] * cov_rank1\n\n\ndef _get_gev_atf_vector", "    scale = np.trace(cov_rank1, axis1=-1, axis2=-2)\n    scale /= np.trace(covariance_matrix, axis1=-1, axis2=-2)\n    return scale[..., None, None] * cov_rank1\n\n\ndef _get_gev_atf_vector", expect='trace-rescaling')
+mut('C12-gev-atf-row-contraction', 'C12', WR, "    return np.einsum('...dD,...D->...d', noise_covariance_matrix, w)", "    return np.einsum('...Dd,...D->...d', noise_covariance_matrix, w)", expect='matvec')
+mut('C12-ban-wrong-chain', 'C12', BF, "        '...a,...ab,...bc,...c->...',\n        vector.conj(), noise_psd_matrix, noise_psd_matrix, vector", "        '...a,...ab,...cb,...c->...',\n        vector.conj(), noise_psd_matrix, noise_psd_matrix, vector", expect='chain')
+mut('C12-ban-gain-not-abs', 'C12', BF, "    return vector * np.abs(normalization[..., np.newaxis])", "    return vector * normalization[..., np.newaxis]", expect='gain')
+mut('C12-pca-trace-scaling-axis', 'C12', BF, "        ) / np.linalg.norm(eigenvectors, axis=-1)\n        scale = scale[..., None]\n    elif scaling == 'eigenvalue':", "        ) / np.linalg.norm(eigenvectors, axis=0)\n        scale = scale[..., None]\n    elif scaling == 'eigenvalue':", expect='trace-scaling')
+mut('C13-wrapper-wrong-primitive', 'C13', WR, "    elif beamformer_core in ['gev', 'rank1_pca+gev', 'rank1_gev+gev']:", "    elif beamformer_core in ['gev', 'rank1_pca+gev']:", expect='R-DISPATCH')
+mut('C13-wrapper-rank1-swapped', 'C13', WR, "    if atf_type == 'rank1_pca':\n        return get_pca_rank_one_estimate(target_psd_matrix, **atf_kwargs)\n    elif atf_type == 'rank1_gev':", "    if atf_type == 'rank1_gev':\n        return get_pca_rank_one_estimate(target_psd_matrix, **atf_kwargs)\n    elif atf_type == 'rank1_pca':", expect='R-DISPATCH')
+mut('C13-wrapper-ban-uses-target', 'C13', WR, "        beamforming_vector = blind_analytic_normalization(\n            beamforming_vector,\n            noise_psd_matrix\n        )", "        beamforming_vector = blind_analytic_normalization(\n            beamforming_vector,\n            target_psd_matrix\n        )", expect='noise-role')
+mut('C13-wrapper-wmwf-ignores-rank1', 'C13', WR, "        beamforming_vector = get_wmwf_vector(\n            target_psd_matrix,\n            noise_psd_matrix,", "        beamforming_vector = get_wmwf_vector(\n            noise_psd_matrix + target_psd_matrix,\n            noise_psd_matrix,", expect='flow')
+mut('C13-wrapper-ban-dropped', 'C13', WR, "    if ban:\n        beamforming_vector = blind_analytic_normalization(", "    if ban and noise_psd_matrix is None:\n        beamforming_vector = blind_analytic_normalization(", expect=None)
+mut('C13-apply-no-conj', 'C13', BF, "    return np.einsum('...a,...at->...t', vector.conj(), mix)", "    return np.einsum('...a,...at->...t', vector, mix)", expect='structure')
+mut('C13-stable-solve-wrong-slice', 'C13', 'pb_bss/math/solve.py', "                C[i], *_ = np.linalg.lstsq(A[i], B[i])\n        return C.reshape(*shape_B)", "                C[i], *_ = np.linalg.lstsq(A[i], B[0])\n        return C.reshape(*shape_B)", expect='index-local')
+
+# ------------------------------------------------------------------ C14 - C16
+PA = 'pb_bss/permutation_alignment.py'
+MU = D + 'mixture_model_utils.py'
+mut('C14-greedy-no-column-retire', 'C14', PA, "                score_matrix[(*f, slice(None), j)] = neg_inf\n", "", expect='retire', props=['C14', 'C15'])
+mut('C14-greedy-no-row-retire', 'C14', PA, "                score_matrix[(*f, i, slice(None))] = neg_inf\n", "", expect='retire')
+mut('C14-greedy-argmin', 'C14', PA, "                    np.argmax(score_matrix_flat[f], axis=-1),", "                    np.argmin(score_matrix_flat[f], axis=-1),", expect='argmax')
+mut('C14-greedy-k-minus-one', 'C14', PA, "            for _ in range(K):\n                # argmax does not support", "            for _ in range(K - 1):\n                # argmax does not support", expect='k-picks')
+mut('C14-greedy-flat-copy', 'C14', PA, "        score_matrix_flat = score_matrix.reshape(*F, K*K)", "        score_matrix_flat = score_matrix.copy().reshape(*F, K*K)", expect='view')
+mut('C14-greedy-column-to-row', 'C14', PA, "                reverse_permutation[(i, *f)] = j", "                reverse_permutation[(j, *f)] = i", expect='row-to-column', props=['C14', 'C15'])
+mut('C14-no-finite-guard', 'C14', PA, "    if not np.all(np.isfinite(score_matrix)):\n        # Exception message copied from scipy.optimize.linear_sum_assignment\n        raise ValueError('score matrix is infeasible')\n", "", expect='finite-guard')
+mut('C14-optimal-lt', 'C15', PA, "                if score > best_score:\n                    best_score = score\n                    best_permutation = permutation", "                if score < best_score:\n                    best_score = score\n                    best_permutation = permutation", expect=None, props=['C15', 'C14'])
+mut('C14-optimal-partial-enumeration', 'C15', PA, "            for permutation in itertools.permutations(range(K)):", "            for permutation in itertools.permutations(range(K - 1)):", expect='enumeration', props=['C15', 'C14'])
+mut('C14-optimal-break', 'C15', PA, "                if score > best_score:\n                    best_score = score\n                    best_permutation = permutation\n", "                if score > best_score:\n                    best_score = score\n                    best_permutation = permutation\n                    if score > 0:\n                        break\n", expect='early-exit', props=['C15', 'C14'])
+mut('C14-optimal-unpaired', 'C15', PA, "                if score > best_score:\n                    best_score = score\n                    best_permutation = permutation", "                if score > best_score:\n                    best_permutation = permutation", expect=None, props=['C15', 'C14'])
+mut('C14-optimal-init-zero', 'C15', PA, "            best_score = float('-inf')\n            best_permutation = None", "            best_score = 0.\n            best_permutation = None", expect='init', props=['C15', 'C14'])
+mut('C14-apply-mapping-wrong-axis', 'C14', PA, "    return mask[mapping, range(F)]", "    return mask[mapping, :][range(F)]", expect='gather')
+mut('C14-inline-em-different-mapping', 'C14', MU, "        quadratic_form = aligner.apply_mapping(quadratic_form, mapping)", "        quadratic_form = aligner.apply_mapping(quadratic_form, aligner.calculate_mapping(quadratic_form))", expect='same-mapping')
+mut('C14-inline-em-rescale', 'C14', MU, "    affiliation = aligner.apply_mapping(affiliation, mapping)\n    affiliation = np.transpose(affiliation, (1, 0, 2))", "    affiliation = aligner.apply_mapping(affiliation, mapping)\n    affiliation = np.transpose(affiliation, (1, 0, 2)) / np.sum(affiliation, axis=0)[:, None, :]", expect='value-preserving')
+mut('C14-inline-pa-ge', 'C14', MU, "            if auxiliary_function_value > best_auxiliary_function_value:", "            if auxiliary_function_value >= best_auxiliary_function_value:", expect='strict')
+mut('C14-inline-pa-partial', 'C14', MU, "    permutations = np.asarray(list(itertools.permutations(range(num_classes))))", "    permutations = np.asarray(list(itertools.permutations(range(num_classes))))[1:]", expect=None)
+mut('C14-dhtv-identity-start', 'C14', PA, "        mapping = np.repeat(np.arange(K)[:, None], F, axis=1)", "        mapping = np.repeat(np.arange(K)[::-1][:, None], F, axis=1)", expect='identity-start', props=['C14', 'C16'])
+mut('C16-dhtv-unpaired', 'C16', PA, "                        mapping[:, f] = mapping[reverse_permutation, f]", "                        mapping[:, f] = reverse_permutation", expect='self-gather', props=['C16', 'C14'])
+mut('C16-dhtv-features-not-updated', 'C16', PA, "                        features[:, f, :] = features[reverse_permutation, f, :]\n", "", expect='paired-update', props=['C16', 'C14'])
+mut('C16-dhtv-different-bins', 'C16', PA, "                        mapping[:, f] = mapping[reverse_permutation, f]", "                        mapping[:, f] = mapping[reverse_permutation, start]", expect=None, props=['C16', 'C14'])
+mut('C16-greedy-chain-raw-predecessor', 'C16', PA, "            mapping[:, f] = mapping[mapping[:, f - 1], f]", "            mapping[:, f] = mapping[mapping[:, 0], f]", expect='composition', props=['C16', 'C14'])
+mut('C16-greedy-chain-start', 'C16', PA, "        for f in range(1, F):\n            mapping[:, f]", "        for f in range(2, F):\n            mapping[:, f]", expect='composition', props=['C16', 'C14'])
+mut('C16-greedy-no-identity-column', 'C16', PA, "            np.arange(K, dtype=mapping.dtype)[:, None], mapping, axis=-1)", "            mapping[:, :1], mapping, axis=-1)", expect='append-identity', props=['C16', 'C14'])
+mut('C15-score-transposed', 'C15', PA, "        score_matrix = np.einsum(\n            'K...T,k...T->...kK',\n            mask.conj(),\n            reference_mask,\n        )", "        score_matrix = np.einsum(\n            'K...T,k...T->...Kk',\n            mask.conj(),\n            reference_mask,\n        )", expect='einsum')
+mut('C15-euclidean-no-transpose', 'C15', PA, "            axis=-1\n        )).T\n        return score_matrix", "            axis=-1\n        ))\n        return score_matrix", expect='layout')
+mut('C15-oracle-swapped-args', 'C15', PA, "        score_matrix = self.get_score_matrix(mask, reference_mask)", "        score_matrix = self.get_score_matrix(reference_mask, mask)", expect='arguments')
+mut('C15-oracle-ignores-algorithm', 'C15', PA, "        mapping = _mapping_from_score_matrix(score_matrix, self.algorithm)\n\n        return mapping", "        mapping = _mapping_from_score_matrix(score_matrix, 'greedy')\n\n        return mapping", expect='assignment')
+mut('C16-dhtv-centroid-stale', 'C16', PA, "                time_centroid = np.mean(features[:, start:end, :], axis=1)", "                time_centroid = np.mean(mask[:, start:end, :], axis=1)", expect='centroid')
+
 # ------------------------------------------------------------------ neutral variants (must stay silent)
 neu('N-rename-affiliation-local', ALLP, [(D + 'mixture_model_utils.py', "    denominator = np.maximum(\n        np.sum(affiliation, axis=-2, keepdims=True),\n        np.finfo(affiliation.dtype).tiny,\n    )\n    affiliation /= denominator\n",
      "    norm_const = np.maximum(\n        np.sum(affiliation, axis=-2, keepdims=True),\n        np.finfo(affiliation.dtype).tiny,\n    )\n    affiliation /= norm_const\n", False)])
@@ -243,6 +321,14 @@ neu('N-watson-logpdf-one-expression', ALLP, [(D + 'complex_watson.py', "        
 neu('N-loop-variable-renamed', ALLP, [(D + 'gmm.py', "        for iteration in range(iterations):\n            if model is not None:\n                affiliation = model.predict(y)\n\n            model = self._m_step(\n                y,\n                affiliation=affiliation,",
                                        "        for it in range(iterations):\n            if model is not None:\n                posterior = model.predict(y)\n                affiliation = posterior\n\n            model = self._m_step(\n                y,\n                affiliation=affiliation,", False)])
 neu('N-mstep-saliency-hoisted', ALLP, [(D + 'vmfmm.py', "            saliency=affiliation * saliency[..., None, :],\n            min_concentration", "            saliency=saliency[..., None, :] * affiliation,\n            min_concentration", False)])
+neu('N-psd-rename-letters', ALLP, [('pb_bss/extraction/beamformer.py', "                '...kt,...dt,...et->...kde',", "                '...sn,...an,...bn->...sab',", False)])
+neu('N-mvdr-conj-other-side', ALLP, [('pb_bss/extraction/beamformer.py', "    denominator = np.einsum('...d,...d->...', atf_vector.conj(), numerator)", "    denominator = np.einsum('...d,...d->...', numerator.conj(), atf_vector)", False)])
+neu('N-greedy-retire-order', ALLP, [('pb_bss/permutation_alignment.py', "                score_matrix[(*f, i, slice(None))] = neg_inf\n                score_matrix[(*f, slice(None), j)] = neg_inf\n", "                score_matrix[(*f, slice(None), j)] = neg_inf\n                score_matrix[(*f, i, slice(None))] = neg_inf\n", False)])
+neu('N-optimal-rename', ALLP, [('pb_bss/permutation_alignment.py', "            for permutation in itertools.permutations(range(K)):\n                score = sum(score_matrix[(*f, range(K), permutation)])\n                if score > best_score:\n                    best_score = score\n                    best_permutation = permutation\n            mapping[(slice(None), *f)] = best_permutation",
+                                 "            for perm in itertools.permutations(range(K)):\n                total = sum(score_matrix[(*f, range(K), perm)])\n                if total > best_score:\n                    best_permutation = perm\n                    best_score = total\n            mapping[(slice(None), *f)] = best_permutation", False)])
+neu('N-wrapper-reordered-branches', ALLP, [('pb_bss/extraction/beamformer_wrapper.py', "    if atf_type == 'rank1_pca':\n        return get_pca_rank_one_estimate(target_psd_matrix, **atf_kwargs)\n    elif atf_type == 'rank1_gev':\n        return get_gev_rank_one_estimate(\n            target_psd_matrix, noise_psd_matrix, **atf_kwargs)",
+                                             "    if atf_type == 'rank1_gev':\n        return get_gev_rank_one_estimate(\n            target_psd_matrix, noise_psd_matrix, **atf_kwargs)\n    elif atf_type == 'rank1_pca':\n        return get_pca_rank_one_estimate(target_psd_matrix, **atf_kwargs)", False)])
+neu('N-phase-correction-copy-method', ALLP, [('pb_bss/extraction/beamformer.py', "    vector = np.array(vector, copy=True)", "    vector = np.asarray(vector).copy()", False)])
 neu('N-add-unrelated-public-function', ALLP, [('pb_bss/extraction/mask_module.py', "def biased_binary_mask(", "def mask_energy(mask):\n    \"\"\"Sum of squares (new helper).\"\"\"\n    mask = np.asarray(mask)\n    return np.sum(mask ** 2)\n\n\ndef biased_binary_mask(", False)])
 neu('N-psd-copy-via-array', ALLP, [('pb_bss/extraction/beamformer.py', "        mask = np.copy(mask)\n", "        mask = np.array(mask, copy=True)\n", False)])
 neu('N-gcacgmm-commute-streams', ALLP, [(D + 'gcacgmm.py',
